@@ -495,7 +495,7 @@ impl Segments {
         let mut delivered_segs = 0;
         let mut recalc_timer = None;
 
-        let take = (high_data - self.snd_una).max(0) as usize;
+        let take = ((high_data - self.snd_una).max(0) as usize).min(self.segments.len());
 
         // After this we don't consider the packet being in the network.
         // rtt/2 might be a bit too aggressive.
